@@ -41,9 +41,12 @@ def InjectCombine(rng, shared=True, agg='Sum'):
   rule that uses the same variable name (top level and inside a combine)."""
   cy, loc = Names(rng, shared)
   x, s, t = Var('x'), Var('s'), Var('t')
-  T = Facts('T', [(i,) for i in sorted({rng.randint(0, 3) for _ in range(3)})])
-  U = Facts('U', RandRows(rng, 2))
-  Vp = Facts('V', RandRows(rng, 2))
+  # dense data: every key of T has rows in U and V, so that a wrong
+  # correlation or a captured variable changes the sums
+  keys = [0, 1, 2]
+  T = Facts('T', [(i,) for i in keys])
+  U = Facts('U', [(i, rng.randint(1, 5)) for i in keys for _ in range(rng.randint(1, 2))])
+  Vp = Facts('V', [(i, rng.randint(1, 5)) for i in keys for _ in range(rng.randint(1, 2))])
   callee = Pred('Callee', [Rule(
       [('col0', x, ''), ('col1', s, '')],
       [Atom('T', [('col0', x)]),
@@ -66,8 +69,19 @@ def InjectCombine(rng, shared=True, agg='Sum'):
       [Atom('Callee', [('col0', x), ('col1', s)]),
        Unify(t, AggE('Sum', Op('+', Var(loc), s),
                      [Atom('V', [('col0', x), ('col1', Var(loc))])]))])])
-  prog = Prog([T, U, Vp, callee, caller, caller2, caller3])
-  return prog, ['Callee', 'Caller', 'CallerAgg', 'CallerMix'], [
+  # a parameterless injectible aggregate whose value is used inside the
+  # caller's aggregating expression over the same local name
+  total = Pred('Total', [Rule(
+      [('col0', s, '')],
+      [Unify(s, AggE(agg, Var(loc), [Atom('T', [('col0', Var(loc))])]))])])
+  shifted = Pred('Shifted', [Rule(
+      [('col0', Var('r'), '')],
+      [Atom('Total', [('col0', Var('a9'))]),
+       Unify(Var('r'), AggE('Sum', Op('+', Var(loc), Var('a9')),
+                            [Atom('V', [('col0', Var(loc)), ('col1', Var('q9'))])]))])])
+  prog = Prog([T, U, Vp, callee, caller, caller2, caller3, total, shifted])
+  return prog, ['Callee', 'Caller', 'CallerAgg', 'CallerMix', 'Total',
+                'Shifted'], [
       'fam_inject_combine', 'fam_shared_local' if shared else 'fam_distinct_local']
 
 
